@@ -41,6 +41,23 @@ def generate(rng, tier):
             cases.append({"k": "seg", "regime": regime, "dur": d * u, "step": s * u, "start": st * u,
                           "focus": [a * u, (a + rng.randrange(0, 120)) * u],
                           "fixed": rng.choice([None, None, rng.randrange(0, 100) * u])})
+    # precision mode (regime P0: set_precision(0), ticks of 1/1024 s): the window geometry is sub-second and must not
+    # be affected by the rounding of segments; focus bounds are whole seconds
+    q, sec = 256, 1024
+    for _ in range(4000 if tier == "thorough" else 500):
+        d, s_, st = rng.randrange(1, 9), rng.randrange(1, 9), rng.randrange(-6, 7)
+        if rng.random() < 0.3:
+            d, s_, st = d * 50 + 13, s_ * 40 + 7, st * 100 + 19          # not multiples of a quarter second either
+        else:
+            d, s_, st = d * q, s_ * q, st * q
+        a = rng.randrange(-4, 7)
+        if rng.random() < 0.7:
+            cases.append({"k": "seg", "regime": "P0", "dur": d, "step": s_, "start": st,
+                          "focus": [a * sec, (a + rng.randrange(0, 5)) * sec],
+                          "fixed": rng.choice([None, None, rng.randrange(0, 12) * q])})
+        else:
+            cases.append({"k": "tl", "regime": "P0", "dur": d, "step": s_, "start": st,
+                          "focus": [[x * sec, y * sec] for x, y in gen.rand_timeline(rng, "K1", maxn=4, span=10)]})
     # tolerance tier: decimal (non-dyadic) window parameters and focus bounds, as real users write them;
     # bounds placed on and next to frame boundaries so that the exact quotients sit at or near rounding ties
     steps = [0.01, 0.02, 0.016, 0.1, 0.25, 1 / 3, 0.005, 0.0125]
